@@ -1194,18 +1194,420 @@ Proof.
   - rewrite H. simpl. rewrite andb_true_r. reflexivity.
 Qed.
 
+Lemma queue_dirty : forall s o, s_dirty (queue s o) = s_dirty s.
+Proof. intros. unfold queue. cbn [s_dirty set_modified set_tosave]. apply upd_obj_dirty. Qed.
+Lemma unqueue_dirty : forall s p, s_dirty (unqueue_slot s p) = s_dirty s.
+Proof. intros. unfold unqueue_slot. destruct p; reflexivity. Qed.
+Lemma idx_del_dirty : forall s e k v, s_dirty (idx_del s e k v) = s_dirty s. Proof. reflexivity. Qed.
+Lemma idx_put_dirty : forall s e k v o, s_dirty (idx_put s e k v o) = s_dirty s. Proof. reflexivity. Qed.
+
+Lemma kobj_eq_sym_parts : forall a b, kobj_eq sch a b ->
+  o_ent b = o_ent a /\ o_pk b = o_pk a /\ is_del (o_st b) = is_del (o_st a) /\ is_gone (o_st b) = is_gone (o_st a).
+Proof. intros a b (A & B & C & D & _). repeat split; congruence. Qed.
+
 Lemma Pk_delete_tail : forall s1 o ob, Pk sch s1 -> is_del (o_st ob) = false -> Pk sch (out_state (delete_tail sch s1 o ob)).
 Proof.
   intros s1 o ob P ND. unfold delete_tail.
-  set (e := o_ent ob). set (attrs := seq O (nattrs sch e)).
+  destruct (get_obj s1 o) as [ob1|] eqn:G1; [|exact P].
+  destruct (negb (status_eqb (o_st ob1) (o_st ob)) || negb (Nat.eqb (o_ent ob1) (o_ent ob))) eqn:CHK. exact P.
+  apply orb_false_iff in CHK. destruct CHK as [CS _]. apply negb_false_iff in CS. apply status_eqb_eq in CS.
+  assert (ND1 : is_del (o_st ob1) = false) by congruence.
+  set (e := o_ent ob1). set (attrs := seq O (nattrs sch e)).
   set (s2 := del_unlink sch s1 o e attrs).
   assert (F2 : kframe sch s1 s2) by apply kframe_del_unlink.
   pose proof (kframe_Pk sch s1 s2 F2 P) as P2.
   set (s3 := del_keys sch s2 o e attrs).
   destruct (del_keys_objs sch attrs s2 o e) as [OBJ3 DIRTY3]. fold s3 in OBJ3, DIRTY3.
   assert (GO : forall o', get_obj s3 o' = get_obj s2 o') by (intros; unfold get_obj; rewrite OBJ3; reflexivity).
-  destruct (get_obj s3 o) as [ob3|] eqn:G3.
-  2:{ cbn [out_state]. destruct P2 as [D|[I SH]]. left. congruence. left. admit. }
-  admit.
-Admitted.
+  pose proof F2 as (_ & _ & _ & F2o). destruct (F2o o ob1 G1) as (ob2 & G2 & K12).
+  destruct (kobj_eq_sym_parts ob1 ob2 K12) as (KE & KP & KD & KG).
+  assert (ND2 : is_del (o_st ob2) = false) by congruence.
+  assert (CR : status_eqb (o_st ob2) SCreated = status_eqb (o_st ob1) SCreated) by (destruct K12 as (_ & _ & _ & _ & C & _); congruence).
+  (* the two final states share their shape: the object gets a deleted status, slot 0 is dropped for a cancelled object *)
+  destruct P2 as [D|[I2 SH2]].
+  { left. destruct (status_eqb (o_st ob1) SCreated).
+    - destruct (o_pk ob1); cbn [out_state]; rewrite ?idx_del_dirty, upd_obj_dirty, unqueue_dirty; congruence.
+    - cbn [out_state]. rewrite queue_dirty, upd_obj_dirty. destruct (status_eqb (o_st ob1) SModified); rewrite ?unqueue_dirty; congruence. }
+  right.
+  assert (SPEC : forall e' k v, idx_get s3 e' k v =
+            if Nat.eqb e' e && match k with O => false | S a => attr_uniq sch e a && oval_eqb (oval ob2 a) (Some v) && negb (is_vnone v) end
+            then None else idx_get s2 e' k v).
+  { intros. unfold s3. rewrite (del_keys_spec sch attrs s2 o e ob2 G2 e' k v). destruct (Nat.eqb e' e); simpl; auto.
+    destruct k as [|a]; auto. unfold attrs. rewrite mem_seq.
+    destruct (attr_uniq sch e a) eqn:U; simpl; rewrite ?andb_false_r; auto. rewrite (attr_uniq_lt e a U). reflexivity. }
+  assert (KV2 : forall k, kview sch ob2 k = match k with O => okey ob2 O | S a => if attr_uniq sch e a then okey ob2 (S a) else None end).
+  { intros. rewrite (kview_live ob2 k ND2). rewrite KE. reflexivity. }
+  destruct (status_eqb (o_st ob1) SCreated) eqn:C1.
+  - (* created -> cancelled *)
+    set (F := fun x => ob_set_st (ob_set_pos x None) SCancelled).
+    set (s4 := upd_obj (unqueue_slot s3 (o_pos ob1)) o F).
+    assert (G4 : get_obj s4 o = Some (F ob2)).
+    { unfold s4. rewrite get_upd_obj_same. replace (get_obj (unqueue_slot s3 (o_pos ob1)) o) with (get_obj s3 o) by (unfold unqueue_slot; destruct (o_pos ob1); reflexivity).
+      rewrite GO, G2. reflexivity. }
+    assert (KVF : forall k, kview sch (F ob2) k = None).
+    { intros. unfold kview, F. cbn [o_st ob_set_st]. destruct k; simpl; rewrite ?andb_false_r; reflexivity. }
+    assert (IDX4 : forall e' k v, idx_get s4 e' k v = idx_get s3 e' k v).
+    { intros. unfold s4. rewrite idx_get_upd_obj. unfold unqueue_slot. destruct (o_pos ob1); reflexivity. }
+    cbn [out_state]. split.
+    + eapply (Inv_rekey sch s2 _ o ob2 (F ob2) I2 G2).
+      * destruct (o_pk ob1); [rewrite get_obj_idx_del|]; exact G4.
+      * reflexivity.
+      * intros o' N. replace (get_obj (match o_pk ob1 with Some pk => idx_del s4 e 0 (VInt pk) | None => s4 end) o') with (get_obj s4 o') by (destruct (o_pk ob1); reflexivity).
+        unfold s4. rewrite get_upd_obj_other by auto. replace (get_obj (unqueue_slot s3 (o_pos ob1)) o') with (get_obj s3 o') by (unfold unqueue_slot; destruct (o_pos ob1); reflexivity). apply GO.
+      * intros e' k v. rewrite KVF. simpl oval_eqb. rewrite andb_false_r. rewrite KV2. rewrite KE. fold e.
+        destruct (o_pk ob1) as [pk|] eqn:PK.
+        -- rewrite idx_del_char, IDX4, SPEC. unfold okey. rewrite KP.
+           destruct (Nat.eqb e' e); simpl; auto. destruct k as [|a]; simpl.
+           ++ destruct v; simpl; auto. rewrite Z.eqb_sym. reflexivity.
+           ++ destruct (attr_uniq sch e a); simpl; auto. destruct (oval ob2 a) as [w|]; simpl; auto.
+              destruct (is_vnone w) eqn:NW; simpl.
+              ** destruct (val_eqb w v) eqn:EW; simpl; auto. apply val_eqb_eq in EW. subst. rewrite NW. reflexivity.
+              ** destruct (val_eqb w v) eqn:EW; simpl; auto. apply val_eqb_eq in EW. subst. rewrite NW. reflexivity.
+        -- rewrite IDX4, SPEC. unfold okey. rewrite KP.
+           destruct (Nat.eqb e' e); simpl; auto. destruct k as [|a]; simpl; auto.
+           destruct (attr_uniq sch e a); simpl; auto. destruct (oval ob2 a) as [w|]; simpl; auto.
+           destruct (is_vnone w) eqn:NW; simpl.
+           ** destruct (val_eqb w v) eqn:EW; simpl; auto. apply val_eqb_eq in EW. subst. rewrite NW. reflexivity.
+           ** destruct (val_eqb w v) eqn:EW; simpl; auto. apply val_eqb_eq in EW. subst. rewrite NW. reflexivity.
+      * intros k v H. rewrite KVF in H. discriminate.
+    + assert (SH4 : Inv_shape sch s4).
+      { unfold s4. apply shape_upd_obj. 2: intros; unfold F; auto.
+        apply (shape_fields sch s2). unfold unqueue_slot. destruct (o_pos ob1); cbn [s_objs set_tosave]; exact OBJ3. exact SH2. }
+      destruct (o_pk ob1); auto.
+  - (* any other live status -> marked_to_delete, queued *)
+    set (s4 := if status_eqb (o_st ob1) SModified then unqueue_slot s3 (o_pos ob1) else s3).
+    assert (O4 : s_objs s4 = s_objs s3 /\ s_idx s4 = s_idx s3) by (unfold s4, unqueue_slot; destruct (status_eqb (o_st ob1) SModified); try destruct (o_pos ob1); auto).
+    destruct O4 as [O4 X4].
+    set (s5 := upd_obj s4 o (fun x => ob_set_st x SMarked)).
+    set (pos := length (s_tosave s5)).
+    assert (G5 : get_obj (queue s5 o) o = Some (ob_set_pos (ob_set_st ob2 SMarked) (Some pos))).
+    { unfold queue. fold pos. change (get_obj (set_modified (set_tosave (upd_obj s5 o (fun ob0 => ob_set_pos ob0 (Some pos))) (s_tosave s5 ++ [Some o])) true) o) with (get_obj (upd_obj s5 o (fun ob0 => ob_set_pos ob0 (Some pos))) o).
+      rewrite get_upd_obj_same. unfold s5. rewrite get_upd_obj_same.
+      replace (get_obj s4 o) with (get_obj s2 o) by (unfold get_obj; rewrite O4, OBJ3; reflexivity). rewrite G2. reflexivity. }
+    assert (KVM : forall k, kview sch (ob_set_pos (ob_set_st ob2 SMarked) (Some pos)) k = match k with O => okey ob2 O | S _ => None end).
+    { intros. unfold kview. cbn [o_st o_ent ob_set_st ob_set_pos]. destruct k; simpl; rewrite ?andb_false_r; reflexivity. }
+    cbn [out_state]. split.
+    + eapply (Inv_rekey sch s2 _ o ob2 _ I2 G2 G5).
+      * reflexivity.
+      * intros o' N. unfold queue. fold pos. change (get_obj (set_modified (set_tosave (upd_obj s5 o (fun ob0 => ob_set_pos ob0 (Some pos))) (s_tosave s5 ++ [Some o])) true) o') with (get_obj (upd_obj s5 o (fun ob0 => ob_set_pos ob0 (Some pos))) o').
+        rewrite get_upd_obj_other by auto. unfold s5. rewrite get_upd_obj_other by auto. unfold get_obj. rewrite O4, OBJ3. reflexivity.
+      * intros e' k v. rewrite KVM, KV2. rewrite KE. fold e.
+        replace (idx_get (queue s5 o) e' k v) with (idx_get s3 e' k v).
+        2:{ unfold queue. fold pos. unfold idx_get. cbn [s_idx set_modified set_tosave]. rewrite upd_obj_idx. unfold s5. rewrite upd_obj_idx. rewrite X4. reflexivity. }
+        rewrite SPEC. destruct (Nat.eqb e' e) eqn:EE; cbn [andb]; auto. destruct k as [|a].
+        -- destruct (oval_eqb (okey ob2 0) (Some v)) eqn:Q; auto. apply oval_eqb_eq in Q. apply Nat.eqb_eq in EE. subst e'.
+           apply (I2 e O v o). exists ob2. repeat split; auto. rewrite KV2. exact Q.
+        -- simpl. destruct (attr_uniq sch e a); simpl; auto. destruct (oval ob2 a) as [w|]; simpl; auto.
+           destruct (is_vnone w) eqn:NW; simpl.
+           ** destruct (val_eqb w v) eqn:EW; simpl; auto. apply val_eqb_eq in EW. subst. rewrite NW. reflexivity.
+           ** destruct (val_eqb w v) eqn:EW; simpl; auto. apply val_eqb_eq in EW. subst. rewrite NW. reflexivity.
+      * intros k v H N. rewrite KVM in H. rewrite KV2 in N. destruct k; [contradiction|discriminate].
+    + unfold queue. eapply (shape_fields sch (upd_obj s5 o (fun ob0 => ob_set_pos ob0 (Some (length (s_tosave s5)))))). reflexivity.
+      apply shape_upd_obj. 2: intros; auto. unfold s5. apply shape_upd_obj. 2: intros; auto.
+      apply (shape_fields sch s2). congruence. exact SH2.
+Qed.
 End WithSchema3.
+
+Section WithSchema4.
+Variable sch : schema.
+Hypothesis WF : wf_schema sch = true.
+
+Lemma Pk_delete_obj : forall fuel s o, Pk sch s -> Pk sch (out_state (delete_obj fuel sch s o)).
+Proof.
+  induction fuel as [|f IH]; intros s o P; cbn [delete_obj]. exact P.
+  destruct (get_obj s o) as [ob|] eqn:G; [|exact P].
+  destruct (is_del (o_st ob)) eqn:ND. exact P.
+  match goal with |- context [match ?r0 with Ok _ _ => _ | Err _ _ => _ end] => set (r := r0) end.
+  assert (P0 : Pk sch (out_state r)).
+  { unfold r. apply Pk_fold_out; auto. intros s0 a P0.
+    destruct (attr_is_set sch (o_ent ob) a && Nat.ltb a (nattrs sch (o_ent ob))); [|exact P0].
+    pose proof (Pk_coll_nonzero sch s0 o a P0) as P1. destruct (coll_nonzero sch s0 o a) as [s1 b|s1 er]; [|exact P1].
+    cbn [out_state] in P1. destruct b; [|exact P1].
+    destruct (set_cascade sch (o_ent ob) a).
+    - match goal with |- context [match ?r1 with Ok _ _ => _ | Err _ _ => _ end] => set (r2 := r1) end.
+      assert (P2 : Pk sch (out_state r2)). { unfold r2. destruct (coll_full s1 o a). exact P1. apply Pk_coll_load_noflush. exact P1. }
+      destruct r2 as [s2 u|s2 er]; [|exact P2]. cbn [out_state] in P2.
+      destruct (copy_assert_fails s2 o a). exact P2.
+      apply Pk_fold_out; auto. eapply kframe_Pk; [apply kframe_note_order|exact P2].
+    - apply Pk_coll_assign_gen; auto. }
+  destruct r as [s1 u|s1 er]; [|exact P0]. cbn [out_state] in P0.
+  apply Pk_delete_tail; auto.
+Qed.
+
+Lemma Pk_coll_assign : forall s o a items, Pk sch s -> Pk sch (out_state (coll_assign sch s o a items)).
+Proof. intros. unfold coll_assign. apply Pk_coll_assign_gen; auto. intros. apply Pk_delete_obj; auto. Qed.
+
+Lemma Pk_coll_remove : forall s o a items, Pk sch s -> Pk sch (out_state (coll_remove sch s o a items)).
+Proof. intros. unfold coll_remove. apply Pk_coll_remove_gen; auto. intros. apply Pk_delete_obj; auto. Qed.
+
+End WithSchema4.
+
+(* ---------------------------------------------------------------- frame that may raise the dirty flag *)
+
+Definition kframe_d (sch : schema) (s s' : sess) : Prop :=
+  s_idx s' = s_idx s /\ (s_dirty s' = s_dirty s \/ s_dirty s' <> O) /\ length (s_objs s') = length (s_objs s) /\
+  forall o a, get_obj s o = Some a -> exists b, get_obj s' o = Some b /\ kobj_eq sch a b.
+
+Lemma kframe_to_d : forall sch s s', kframe sch s s' -> kframe_d sch s s'.
+Proof. intros sch s s' (A & B & C & D). repeat split; auto. Qed.
+
+Lemma kframe_d_trans : forall sch s1 s2 s3, kframe_d sch s1 s2 -> kframe_d sch s2 s3 -> kframe_d sch s1 s3.
+Proof.
+  intros sch s1 s2 s3 (A1 & A2 & A3 & A4) (B1 & B2 & B3 & B4). repeat split; try congruence.
+  - destruct B2 as [B2|B2]; auto. destruct A2 as [A2|A2]. left. congruence. right. congruence.
+  - intros o a H. destruct (A4 o a H) as (b & Hb & E1). destruct (B4 o b Hb) as (c & Hc & E2).
+    exists c. split; auto. eapply kobj_eq_trans; eauto.
+Qed.
+
+Lemma kframe_d_mark_dirty : forall sch s site, site <> O -> kframe_d sch s (mark_dirty s site).
+Proof.
+  intros. repeat split; auto.
+  - right. unfold mark_dirty. cbn [s_dirty]. destruct (s_dirty s); auto.
+  - intros o a G. exists a. split; auto. apply kobj_eq_refl.
+Qed.
+
+Lemma kframe_d_Pk : forall sch s s', kframe_d sch s s' -> Pk sch s -> Pk sch s'.
+Proof.
+  intros sch s s' (A & B & C & D) P. destruct B as [B|B]; [|left; exact B].
+  apply (kframe_Pk sch s s'); auto. repeat split; auto.
+Qed.
+
+Lemma kframe_d_is_del : forall sch s s' o, kframe_d sch s s' -> is_del (obj_st s' o) = is_del (obj_st s o).
+Proof.
+  intros sch s s' o (_ & _ & L & F). unfold obj_st. destruct (get_obj s o) as [a|] eqn:G.
+  - destruct (F o a G) as (b & Hb & K). rewrite Hb. destruct K as (_ & _ & K & _). congruence.
+  - rewrite (get_obj_None_len s s' o L G). reflexivity.
+Qed.
+
+Lemma any_del_kframe_d : forall sch s s' l, kframe_d sch s s' -> any_del s' l = any_del s l.
+Proof. intros. unfold any_del. apply existsb_ext_eq. intros x. apply (kframe_d_is_del sch s s' x H). Qed.
+
+Lemma kframe_d_refl : forall sch s, kframe_d sch s s.
+Proof. intros. apply kframe_to_d. apply kframe_refl. Qed.
+
+Section WithSchema5.
+Variable sch : schema.
+Hypothesis WF : wf_schema sch = true.
+
+Lemma put_keys_objs : forall l s o e, s_objs (put_keys sch s o e l) = s_objs s /\ s_dirty (put_keys sch s o e l) = s_dirty s.
+Proof.
+  induction l as [|a l IH]; intros s o e; unfold put_keys; simpl. auto.
+  set (s1 := if attr_uniq sch e a then match obj_val s o a with Some v => if is_vnone v then s else idx_put s e (S a) v o | None => s end else s).
+  assert (E : s_objs s1 = s_objs s /\ s_dirty s1 = s_dirty s).
+  { unfold s1. destruct (attr_uniq sch e a); auto. destruct (obj_val s o a) as [v|]; auto. destruct (is_vnone v); auto. }
+  change (fold_left _ l s1) with (put_keys sch s1 o e l). destruct (IH s1 o e) as [A B]. destruct E. split; congruence.
+Qed.
+
+Lemma put_keys_spec : forall l s o e ob, get_obj s o = Some ob ->
+  forall e' k v, idx_get (put_keys sch s o e l) e' k v =
+    if Nat.eqb e' e && match k with
+                       | O => false
+                       | S a => mem_nat a l && attr_uniq sch e a && oval_eqb (oval ob a) (Some v) && negb (is_vnone v)
+                       end
+    then Some o else idx_get s e' k v.
+Proof.
+  induction l as [|a l IH]; intros s o e ob G e' k v.
+  - unfold put_keys. simpl. destruct k; rewrite ?andb_false_r; reflexivity.
+  - unfold put_keys. simpl. fold put_keys.
+    set (s1 := if attr_uniq sch e a then match obj_val s o a with Some v0 => if is_vnone v0 then s else idx_put s e (S a) v0 o | None => s end else s).
+    change (fold_left _ l s1) with (put_keys sch s1 o e l).
+    assert (G1 : get_obj s1 o = Some ob).
+    { unfold s1. destruct (attr_uniq sch e a); auto. destruct (obj_val s o a) as [v0|]; auto. destruct (is_vnone v0); auto. }
+    rewrite (IH s1 o e ob G1 e' k v).
+    assert (S1 : idx_get s1 e' k v = if Nat.eqb e' e && match k with O => false | S b => Nat.eqb b a && attr_uniq sch e a && oval_eqb (oval ob a) (Some v) && negb (is_vnone v) end then Some o else idx_get s e' k v).
+    { unfold s1. rewrite (obj_val_get s o ob a G).
+      destruct (attr_uniq sch e a) eqn:U; [|destruct k; rewrite ?andb_false_r; simpl; rewrite ?andb_false_r; reflexivity].
+      destruct (oval ob a) as [v0|] eqn:OV; [|destruct k; rewrite ?andb_false_r; simpl; rewrite ?andb_false_r; reflexivity].
+      destruct (is_vnone v0) eqn:NV.
+      - destruct (Nat.eqb e' e); simpl; auto. destruct k as [|b]; auto. destruct (Nat.eqb b a); simpl; auto.
+        destruct (val_eqb v0 v) eqn:EV; simpl; auto. apply val_eqb_eq in EV. subst. rewrite NV. reflexivity.
+      - rewrite idx_put_char. destruct (Nat.eqb e' e); simpl; auto. destruct k as [|b]; simpl; auto.
+        destruct (Nat.eqb b a); simpl; auto. rewrite (val_eqb_sym v v0).
+        destruct (val_eqb v0 v) eqn:EV; simpl; auto. apply val_eqb_eq in EV. subst. rewrite NV. reflexivity. }
+    rewrite S1. destruct (Nat.eqb e' e); simpl; auto. destruct k as [|b]; auto.
+    destruct (Nat.eqb b a) eqn:BA; simpl; auto.
+    apply Nat.eqb_eq in BA. subst b.
+    destruct (attr_uniq sch e a); simpl; rewrite ?andb_false_r; auto.
+    destruct (oval_eqb (oval ob a) (Some v)); simpl; rewrite ?andb_false_r; auto.
+    destruct (is_vnone v); simpl; rewrite ?andb_false_r; auto.
+    destruct (mem_nat a l); reflexivity.
+Qed.
+
+Lemma validate_all_length : forall s attrs a kw cs, validate_all s attrs a kw = VOk cs -> length cs = length attrs.
+Proof.
+  intros s attrs. induction attrs as [|at_ t IH]; intros a kw cs H; simpl in H. inversion H. reflexivity.
+  destruct (match a_kind at_ with KSet tg _ => _ | _ => _ end) as [c| |]; try discriminate.
+  destruct (validate_all s t (S a) kw) as [cs'| |] eqn:E; try discriminate. inversion H; subst. simpl. f_equal. eapply IH; eauto.
+Qed.
+
+Lemma Pk_handle_of : forall s o, Pk sch s -> Pk sch (fst (handle_of s o)).
+Proof. intros. unfold handle_of. destruct (index_of o (s_handles s) 0); simpl; auto. Qed.
+
+Lemma Pk_handles_of : forall os s, Pk sch s -> Pk sch (fst (handles_of s os)).
+Proof.
+  induction os as [|o t IH]; intros s P; simpl. exact P.
+  pose proof (Pk_handle_of s o P) as P1. destruct (handle_of s o) as [s1 h]. simpl in P1.
+  specialize (IH s1 P1). destruct (handles_of s1 t). exact IH.
+Qed.
+
+Lemma Pk_objs_res : forall s os, Pk sch s -> Pk sch (fst (objs_res s os)).
+Proof.
+  intros. unfold objs_res. pose proof (Pk_handles_of (sort_by (obj_le s) os) s H) as P1.
+  destruct (handles_of s (sort_by (obj_le s) os)). exact P1.
+Qed.
+End WithSchema5.
+
+Section WithSchema6.
+Variable sch : schema.
+Hypothesis WF : wf_schema sch = true.
+
+Definition new_rel_step (o : oid) (e : nat) (acc : sess) (p : nat * cval) : sess :=
+  match snd p with
+  | CVal (VRef t) => match ref_info sch e (fst p) with Some (_, r_) => rev_add acc t r_ o | None => acc end
+  | CVal _ => acc
+  | CSet [] => acc
+  | CSet items =>
+    match set_info sch e (fst p) with
+    | Some (_, r_) =>
+      let acc1 := fold_left (fun ac i => item_link sch ac o (fst p) r_ i) items (note_order acc items) in
+      let acc1 := if seteq_nat (sd_items (get_sd acc1 o (fst p))) items then acc1 else mark_dirty acc1 24 in
+      set_modified (modcoll_add (put_sd acc1 o (fst p) (mkSd items items [] true (Some (Z.of_nat (length items))))) o (fst p)) true
+    | None => acc
+    end
+  end.
+
+Lemma kframe_d_new_rel_step : forall o e acc p,
+  (forall items, snd p = CSet items -> any_del acc items = false) -> kframe_d sch acc (new_rel_step o e acc p).
+Proof.
+  intros o e acc p AL. unfold new_rel_step. destruct (snd p) as [v|items] eqn:SP.
+  - destruct v; try apply kframe_d_refl. destruct (ref_info sch e (fst p)) as [[t r]|]; try apply kframe_d_refl.
+    apply kframe_to_d. apply kframe_rev_add.
+  - destruct items as [|i0 it0]. apply kframe_d_refl. set (items := i0 :: it0) in *.
+    destruct (set_info sch e (fst p)) as [[t r_]|]; try apply kframe_d_refl.
+    set (acc1 := fold_left (fun ac i => item_link sch ac o (fst p) r_ i) items (note_order acc items)).
+    assert (F1 : kframe sch acc acc1).
+    { unfold acc1. apply (kframe_trans sch acc (note_order acc items)). apply kframe_note_order.
+      apply kframe_fold_items; auto. intros. apply kframe_item_link; auto.
+      rewrite (any_del_kframe sch acc (note_order acc items) items (kframe_note_order sch oid acc items)). apply AL. reflexivity. }
+    set (acc2 := if seteq_nat (sd_items (get_sd acc1 o (fst p))) items then acc1 else mark_dirty acc1 24).
+    assert (F2 : kframe_d sch acc acc2).
+    { unfold acc2. destruct (seteq_nat (sd_items (get_sd acc1 o (fst p))) items). apply kframe_to_d. exact F1.
+      eapply kframe_d_trans. apply kframe_to_d. exact F1. apply kframe_d_mark_dirty. discriminate. }
+    eapply kframe_d_trans. exact F2. apply kframe_to_d.
+    eapply kframe_trans. apply kframe_put_sd. eapply kframe_trans. apply kframe_modcoll_add. apply kframe_fields; reflexivity.
+Qed.
+
+Lemma kframe_d_new_rel_fold : forall o e ics acc,
+  (forall p items, In p ics -> snd p = CSet items -> any_del acc items = false) ->
+  kframe_d sch acc (fold_left (new_rel_step o e) ics acc).
+Proof.
+  intros o e ics. induction ics as [|p t IH]; intros acc AL; simpl. apply kframe_d_refl.
+  assert (F : kframe_d sch acc (new_rel_step o e acc p)).
+  { apply kframe_d_new_rel_step. intros items H. apply (AL p items); auto. left. reflexivity. }
+  eapply kframe_d_trans. exact F. apply IH. intros q items I H.
+  rewrite (any_del_kframe_d sch acc _ items F). apply (AL q items); auto. right. exact I.
+Qed.
+
+Lemma first_bad_set_none : forall s cs a, first_bad_set s cs a = None -> forall items, In (CSet items) cs -> any_del s items = false.
+Proof.
+  intros s cs. induction cs as [|c t IH]; intros a H items I. destruct I.
+  simpl in H. destruct c as [v|its].
+  - destruct I as [I|I]. discriminate. eapply IH; eauto.
+  - destruct (any_del s its) eqn:AD. discriminate. destruct I as [I|I]. inversion I; subst. exact AD. eapply IH; eauto.
+Qed.
+
+Lemma In_combine_snd : forall A B (l : list A) (m : list B) p, In p (combine l m) -> In (snd p) m.
+Proof. intros A B l m [x y] H. apply in_combine_r in H. exact H. Qed.
+
+Lemma new_obj_record_props : forall e pk cs upto,
+  o_ent (new_obj_record e pk cs upto) = e /\ o_pk (new_obj_record e pk cs upto) = pk /\
+  o_st (new_obj_record e pk cs upto) = SCreated /\ length (o_vals (new_obj_record e pk cs upto)) = length cs.
+Proof.
+  intros. unfold new_obj_record. cbn [o_ent o_pk o_st o_vals]. repeat split; auto.
+  rewrite map_length, combine_length, seq_length. lia.
+Qed.
+
+Lemma any_del_false_lt : forall s items i, any_del s items = false -> In i items -> (i < length (s_objs s))%nat.
+Proof.
+  intros s items i AD I. unfold any_del in AD. destruct (lt_dec i (length (s_objs s))); auto.
+  exfalso. assert (E : existsb (fun i0 => is_del (obj_st s i0)) items = true).
+  { apply existsb_exists. exists i. split; auto. unfold obj_st. rewrite get_obj_ge by lia. reflexivity. }
+  congruence.
+Qed.
+End WithSchema6.
+
+Section WithSchema7.
+Variable sch : schema.
+Hypothesis WF : wf_schema sch = true.
+
+Lemma nattrs_eq : forall e en, nth_error sch e = Some en -> nattrs sch e = length (e_attrs en).
+Proof. intros. unfold nattrs. rewrite H. reflexivity. Qed.
+
+Lemma Pk_new_op : forall s e pk kw, Pk sch s -> Pk sch (fst (new_op sch s e pk kw)).
+Proof.
+  intros s e pk kw P. unfold new_op. destruct (nth_error sch e) as [en|] eqn:EN; [|exact P].
+  destruct (negb (kw_handles_ok s kw)). exact P.
+  destruct (existsb _ kw). exact P.
+  destruct (negb (e_auto en) && match pk with None => true | Some _ => false end). exact P.
+  destruct (validate_all s (e_attrs en) 0 kw) as [cs| |] eqn:VA; try exact P.
+  set (n := length cs). set (ob0 := new_obj_record e pk cs n).
+  destruct (key_conflicts sch s e ob0 (seq 0 n)) eqn:KC. exact P.
+  destruct (match pk with Some z => match idx_get s e 0 (VInt z) with Some _ => true | None => false end | None => false end) eqn:PC. exact P.
+  destruct (first_bad_set s cs 0) as [j|] eqn:FB.
+  { (* phantom *) unfold push_obj. cbn [fst]. apply Pk_dirty. discriminate. }
+  unfold push_obj.
+  set (o := length (s_objs s)). set (s1 := set_objs s (s_objs s ++ [ob0])).
+  set (s2 := match pk with Some z => idx_put s1 e 0 (VInt z) o | None => s1 end).
+  set (s3 := put_keys sch s2 o e (seq 0 n)).
+  match goal with |- context [fold_left ?f (combine (seq 0 n) cs) s3] => change f with (new_rel_step sch o e) end.
+  set (s4 := fold_left (new_rel_step sch o e) (combine (seq 0 n) cs) s3).
+  assert (P4 : Pk sch s4).
+  2:{ pose proof (Pk_handle_of sch (queue s4 o) o (kframe_Pk sch _ _ (kframe_queue sch s4 o) P4)) as P5.
+      destruct (handle_of (queue s4 o) o). exact P5. }
+  destruct (new_obj_record_props e pk cs n) as (OE & OP & OS & OL). fold ob0 in OE, OP, OS, OL.
+  assert (NA : n = nattrs sch e) by (unfold n; rewrite (validate_all_length s _ _ _ _ VA); symmetry; apply nattrs_eq; auto).
+  destruct (put_keys_objs sch (seq 0 n) s2 o e) as [OBJ3 DIRTY3]. fold s3 in OBJ3, DIRTY3.
+  assert (OBJ2 : s_objs s2 = s_objs s ++ [ob0]) by (unfold s2; destruct pk; reflexivity).
+  assert (G3 : forall o', get_obj s3 o' = if Nat.eqb o' o then Some ob0 else get_obj s o').
+  { intros. unfold get_obj. rewrite OBJ3, OBJ2. fold (get_obj (fst (push_obj s ob0)) o'). apply get_push_obj. }
+  assert (G2o : get_obj s2 o = Some ob0).
+  { unfold get_obj. rewrite OBJ2. apply nth_error_app_new. }
+  assert (P3 : Pk sch s3).
+  { destruct P as [D|[I SH]]. { left. rewrite DIRTY3. unfold s2. destruct pk; exact D. }
+    right. split.
+    - apply (Inv_push sch s s3 ob0 I G3).
+      + intros e' k v. unfold s3. rewrite (put_keys_spec sch (seq 0 n) s2 o e ob0 G2o e' k v).
+        rewrite OE. unfold kview. rewrite OE, OS. cbn [key_live is_gone is_del negb].
+        assert (IDX2 : idx_get s2 e' k v = if Nat.eqb e' e && Nat.eqb k 0 && oval_eqb (okey ob0 0) (Some v) then Some o else idx_get s e' k v).
+        { unfold s2, okey. rewrite OP. destruct pk as [z|].
+          - rewrite idx_put_char. change (idx_get s1 e' k v) with (idx_get s e' k v). simpl. rewrite (val_eqb_sym v (VInt z)). reflexivity.
+          - rewrite !andb_false_r. reflexivity. }
+        rewrite IDX2. destruct (Nat.eqb e' e); simpl; auto. destruct k as [|a]; simpl.
+        * reflexivity.
+        * rewrite andb_true_r. rewrite mem_seq. destruct (attr_uniq sch e a) eqn:U; simpl; rewrite ?andb_false_r; auto.
+          rewrite NA, (attr_uniq_lt sch e a U). simpl.
+          destruct (oval ob0 a) as [w|]; simpl; auto. destruct (is_vnone w) eqn:NW; simpl.
+          -- destruct (val_eqb w v) eqn:EW; simpl; auto. apply val_eqb_eq in EW. subst w. rewrite NW. reflexivity.
+          -- destruct (val_eqb w v) eqn:EW; simpl; auto. apply val_eqb_eq in EW. subst w. rewrite NW. reflexivity.
+      + intros k v H. rewrite OE. unfold kview in H. rewrite OE, OS in H. cbn [key_live is_gone is_del negb] in H.
+        destruct k as [|a].
+        * simpl in H. try rewrite OP in H. destruct pk as [z|]; try discriminate. inversion H; subst v.
+          destruct (idx_get s e 0 (VInt z)); [discriminate|reflexivity].
+        * simpl in H. destruct (attr_uniq sch e a) eqn:U; simpl in H; try discriminate.
+          destruct (oval ob0 a) as [w|] eqn:OW; try discriminate. destruct (is_vnone w) eqn:NW; try discriminate. inversion H; subst w.
+          unfold key_conflicts in KC. destruct (idx_get s e (S a) v) eqn:IX; auto. exfalso.
+          assert (E : existsb (fun a0 => attr_uniq sch e a0 && match oval ob0 a0 with Some v0 => negb (is_vnone v0) && match idx_get s e (S a0) v0 with Some _ => true | None => false end | None => false end) (seq 0 n) = true).
+          { apply existsb_exists. exists a. split. apply in_seq. pose proof (attr_uniq_lt sch e a U) as L. apply Nat.ltb_lt in L. lia.
+            rewrite U, OW, NW, IX. reflexivity. }
+          congruence.
+    - intros o' ob'. rewrite G3. destruct (Nat.eqb o' o).
+      + intro H. inversion H; subst ob'. rewrite OL, OE. exact NA.
+      + apply SH. }
+  eapply kframe_d_Pk; [|exact P3]. apply kframe_d_new_rel_fold; auto.
+  intros p items I SP. pose proof (In_combine_snd _ _ _ _ p I) as IC. rewrite SP in IC.
+  pose proof (first_bad_set_none s cs 0 FB items IC) as AD.
+  unfold any_del. rewrite <- AD. unfold any_del. apply existsb_ext_eq_in. intros i Hi.
+  pose proof (any_del_false_lt s items i AD Hi) as L.
+  unfold obj_st. rewrite G3. assert (Nat.eqb i o = false) by (apply Nat.eqb_neq; unfold o; lia). rewrite H. reflexivity.
+Qed.
+End WithSchema7.
